@@ -12,3 +12,7 @@ open A2l.Srt
 #print axioms placed_keys_stable_partial
 #print axioms nothing_between_last_placed_and_new
 #print axioms new_directly_behind_last_placed_partial
+#print axioms iterInv_of_distinct
+#print axioms iterInv_preserved
+#print axioms placed_order_stable_k_calls_partial
+#print axioms placed_order_stable_ties_partial
